@@ -521,11 +521,103 @@ def km2(P, C):
          "characters of the value are compared with the quote only, or with the blank at the end of the view (%d comparisons)" % len(cmps))
 
 
+def km4(P, C):
+    C.rule("KM-4", "the key store keeps insertion order: remove_key copies the surviving entries in ascending source order into consecutive slots "
+           "(one store new[k++] = aux[j] in a counting loop over all j, guarded by j != removed index), write_key copies slot j to slot j for "
+           "every j and puts the new entry into the last slot; no routine swaps or moves entries inside the store", floor=4)
+    for name in ("remove_key", "write_key"):
+        fs_ = [g for g in P.fns(name) if g.unit == "driver" and "splinetable<" in g.qname]
+        if not fs_:
+            raise core.AnalysisBroken("KM-4: %s not found" % name)
+        f = fs_[0]
+        # entry moves inside the store: aux[a] = aux[b], swap(aux[..], ..)
+        inplace = []
+        for y in f.walk():
+            ap = ts.assign_parts(f, y)
+            if ap and ap[1] is not None:
+                l, r = ts.root_member(f, ap[0]), ts.root_member(f, ap[1])
+                if l and r and l[0] == "aux" and r[0] == "aux" and l[1] == 1 and r[1] == 1:
+                    inplace.append(y)
+            cal = f.nodes[y].get("callee")
+            if cal and cal["name"] in ("swap", "iter_swap", "rotate", "reverse", "swap_ranges", "sort") and \
+                    any(ts.root_member(f, a) and ts.root_member(f, a)[0] == "aux" for a in f.args(y)):
+                inplace.append(y)
+        C.ob("KM-4", name, "no-moves-inside-the-store", not inplace, f.loc(inplace[0]) if inplace else f.where(),
+             "entries are never swapped or moved inside the store" if not inplace else "%s reorders entries of the store" % f.render(inplace[0])[:80])
+        # stores of store entries into the replacement array
+        moves = []
+        for y in f.walk():
+            ap = ts.assign_parts(f, y)
+            if ap and ap[1] is not None and f.nodes[y].get("op") == "=":
+                r = ts.root_member(f, ap[1])
+                l = f.strip(ap[0])
+                if r and r[0] == "aux" and r[1] == 1 and f.k(l) == "ArraySubscriptExpr" and ts.root_member(f, l) is None:
+                    moves.append(y)
+        bulk = [y for y, cal in f.calls() if cal and cal["name"] in ("copy", "copy_n", "move", "copy_backward", "memcpy", "memmove") and f.args(y) and
+                ts.root_member(f, f.args(y)[0]) and ts.root_member(f, f.args(y)[0])[0] == "aux" and ts.root_member(f, f.args(y)[0])[1] == 0]
+        ok = False
+        det = "%d element copies, %d bulk copies of the store" % (len(moves), len(bulk))
+        if len(moves) == 1 and not bulk:
+            y = moves[0]
+            txt, order = f.alpha(y)
+            txt = txt.replace(" ", "")
+            from . import gw
+            L = next((a for a in f.ancestors(y) if f.k(a) == "ForStmt"), None)
+            if name == "remove_key":
+                g = [a for a in f.ancestors(y) if f.k(a) == "IfStmt"]
+                ct = f.alpha(f.nodes[g[0]]["cond"]) if g else ("", [])
+                # new[k++] = aux[j] under (j != i), j over 0..naux
+                cl = uw_canonical(f, L)
+                ok = txt == "(v0[(v1++)]=aux[v2])" and len(g) == 1 and ct[0].replace(" ", "") == "(v0!=v1)" and ct[1][0] == order[2] and \
+                    cl is not None and cl[0] == order[2] and cl[1] == "naux" and counter_starts_at_zero(f, order[1])
+                det = "new[k++] = aux[j] for j = 0..naux-1, j != removed index: %s" % ok
+            else:
+                cl = uw_canonical(f, L)
+                ok = txt == "(v0[v1]=aux[v1])" and cl is not None and cl[0] == order[1] and cl[1] == "naux" and not [a for a in f.ancestors(y) if f.k(a) == "IfStmt" and L in set(f.ancestors(a))]
+                last = [z for z in f.walk() if ts.assign_parts(f, z) and f.alpha(z)[0].replace(" ", "") == "(v0[naux]=v1)" and f.alpha(z)[1][0] == order[0]]
+                ok = ok and len(last) == 1
+                det = "new[j] = aux[j] for every j, new entry into slot naux: %s" % ok
+        C.ob("KM-4", name, "order-preserving-copy", ok, f.loc(moves[0]) if moves else f.where(), det)
+
+
+def uw_canonical(f, L):
+    from . import uw
+    if L is None:
+        return None
+    cl = uw.canonical_loop(f, L)
+    if cl is None:
+        # for (T j=0, k=0; ...): two declarations in the init
+        n = f.nodes[L]
+        ini = f.nodes[n["init"]] if n.get("init", -1) >= 0 else None
+        if ini and ini["k"] == "DeclStmt" and len(ini["decls"]) == 2:
+            c = f.nodes[f.strip(n["cond"])]
+            inc = f.nodes[f.strip(n["inc"])]
+            if c["k"] == "BinaryOperator" and c["op"] == "<" and inc["k"] == "UnaryOperator" and inc["op"] == "++":
+                v = f.strip(c["ch"][0])
+                iv = f.strip(inc["ch"][0])
+                if f.k(v) == "DeclRefExpr" and f.k(iv) == "DeclRefExpr" and f.nodes[v]["decl"]["id"] == f.nodes[iv]["decl"]["id"] and \
+                        f.nodes[v]["decl"]["id"] in [d["id"] for d in ini["decls"]]:
+                    d0 = [d for d in ini["decls"] if d["id"] == f.nodes[v]["decl"]["id"]][0]
+                    if d0.get("init", -1) >= 0 and f.nodes[f.strip(d0["init"])].get("cv") == 0:
+                        return f.nodes[v]["decl"]["id"], f.render(c["ch"][1]).replace("this->", "").replace(" ", "")
+    return cl
+
+
+def counter_starts_at_zero(f, vid):
+    for y in f.walk():
+        if f.k(y) == "DeclStmt":
+            for d in f.nodes[y]["decls"]:
+                if d.get("id") == vid:
+                    return d.get("init", -1) >= 0 and f.nodes[f.strip(d["init"])].get("cv") == 0
+    return False
+
+
 def run(P, C):
     api1(P, C)
     ks1(P, C)
     km1(P, C)
     km2(P, C)
+    km4(P, C)
     ts1w(P, C)
     fs4(P, C)
     fs5(P, C)
